@@ -274,6 +274,9 @@ type op struct {
 	N     int    `json:"n,omitempty"`    // byteCount of ReadOperandBytes
 	Typed string `json:"typed,omitempty"`
 	Idx   int    `json:"idx,omitempty"`
+	// Scribble: after a byte-slice read the harness overwrites the slice it was
+	// handed (the register file must not change: a read result is a value)
+	Scribble bool `json:"scribble,omitempty"`
 
 	a    api
 	od   *opnd
@@ -330,6 +333,29 @@ type stores struct {
 	raw []*kernels.Wavefront
 	twf []*wavefront.Wavefront
 	ewf []*emu.Wavefront
+
+	lastRaw  []byte // the very slice the last ReadOperandBytes / ReadReg handed out (not a copy)
+	lastArg  []byte // the very slice the last WriteOperandBytes / WriteReg was given
+	keepHeld bool
+	held     []*heldRead
+}
+
+// heldRead is a read result the harness keeps alive, as an ALU does with the
+// operands of one instruction: a result is a value, so no later access to the
+// register store may change it.
+type heldRead struct {
+	back  int
+	opIdx int
+	o     *op
+	buf   []byte // the slice the store handed out
+	want  []byte // its content when it was handed out (after the harness' own scribble, if any)
+	bad   bool
+}
+
+func scribble(b []byte) {
+	for i := range b {
+		b[i] ^= 0xA5
+	}
 }
 
 func newStores(pl []wavePlace) *stores {
@@ -379,6 +405,7 @@ func clone(b []byte) []byte { return append([]byte(nil), b...) }
 // do performs one operation on one backing; a panic inside the code under test
 // is caught and returned.
 func (s *stores) do(back int, o *op) (res []byte, pan string) {
+	s.lastRaw, s.lastArg = nil, nil
 	defer func() {
 		if r := recover(); r != nil {
 			pan = fmt.Sprint(r)
@@ -391,15 +418,19 @@ func (s *stores) do(back int, o *op) (res []byte, pan string) {
 		case aReadOperand:
 			return le64(wf.ReadOperand(o.od.Op, o.Lane)), ""
 		case aReadOperandBytes:
-			return clone(wf.ReadOperandBytes(o.od.Op, o.Lane, o.N)), ""
+			s.lastRaw = wf.ReadOperandBytes(o.od.Op, o.Lane, o.N)
+			return clone(s.lastRaw), ""
 		case aReadReg:
-			return clone(wf.ReadReg(o.od.Op.Register, o.od.Op.RegCount, o.Lane)), ""
+			s.lastRaw = wf.ReadReg(o.od.Op.Register, o.od.Op.RegCount, o.Lane)
+			return clone(s.lastRaw), ""
 		case aWriteOperand:
 			wf.WriteOperand(o.od.Op, o.Lane, o.Val)
 		case aWriteOperandBytes:
-			wf.WriteOperandBytes(o.od.Op, o.Lane, clone(o.data))
+			s.lastArg = clone(o.data)
+			wf.WriteOperandBytes(o.od.Op, o.Lane, s.lastArg)
 		case aWriteReg:
-			wf.WriteReg(o.od.Op.Register, o.od.Op.RegCount, o.Lane, clone(o.data))
+			s.lastArg = clone(o.data)
+			wf.WriteReg(o.od.Op.Register, o.od.Op.RegCount, o.Lane, s.lastArg)
 		case aTypedGet:
 			switch o.t {
 			case tVCC:
@@ -440,15 +471,19 @@ func (s *stores) do(back int, o *op) (res []byte, pan string) {
 	case aReadOperand:
 		return le64(wf.ReadOperand(o.od.Op, o.Lane)), ""
 	case aReadOperandBytes:
-		return clone(wf.ReadOperandBytes(o.od.Op, o.Lane, o.N)), ""
+		s.lastRaw = wf.ReadOperandBytes(o.od.Op, o.Lane, o.N)
+		return clone(s.lastRaw), ""
 	case aReadReg:
-		return clone(wf.RegAccessor.ReadReg(o.od.Op.Register, o.od.Op.RegCount, o.Lane, waveOffset())), ""
+		s.lastRaw = wf.RegAccessor.ReadReg(o.od.Op.Register, o.od.Op.RegCount, o.Lane, waveOffset())
+		return clone(s.lastRaw), ""
 	case aWriteOperand:
 		wf.WriteOperand(o.od.Op, o.Lane, o.Val)
 	case aWriteOperandBytes:
-		wf.WriteOperandBytes(o.od.Op, o.Lane, clone(o.data))
+		s.lastArg = clone(o.data)
+		wf.WriteOperandBytes(o.od.Op, o.Lane, s.lastArg)
 	case aWriteReg:
-		wf.RegAccessor.WriteReg(o.od.Op.Register, o.od.Op.RegCount, o.Lane, waveOffset(), clone(o.data))
+		s.lastArg = clone(o.data)
+		wf.RegAccessor.WriteReg(o.od.Op.Register, o.od.Op.RegCount, o.Lane, waveOffset(), s.lastArg)
 	case aTypedGet:
 		switch o.t {
 		case tVCC:
@@ -835,6 +870,22 @@ func apply(m *model, s *stores, o *op) [numBackings]verdict {
 				v[b].Bad, v[b].Sym = true, valueSym(o.od)
 				v[b].What = fmt.Sprintf("returned %x, the cells hold %x", got, want)
 			}
+			if pan != "" || s.lastRaw == nil || (o.a != aReadOperandBytes && o.a != aReadReg) {
+				continue
+			}
+			raw := s.lastRaw
+			if o.Scribble && !v[b].Bad {
+				// the caller owns what it was handed: writing into it must not reach the register store
+				scribble(raw)
+				obs, opan := s.observe(b, o.W, o.od, o.Lane)
+				if full := m.read(o.W, o.od, o.Lane); opan != "" || !bytes.Equal(obs, full) {
+					v[b].Bad, v[b].Sym = true, "result-is-a-view-of-the-register-store"
+					v[b].What = fmt.Sprintf("after the caller overwrote the %d bytes it was handed, the cells hold %x (model %x) %s", len(raw), obs, full, opan)
+				}
+			}
+			if s.keepHeld {
+				s.held = append(s.held, &heldRead{back: b, opIdx: -1, o: o, buf: raw, want: clone(raw)})
+			}
 		}
 		return v
 	}
@@ -846,6 +897,9 @@ func apply(m *model, s *stores, o *op) [numBackings]verdict {
 		if pan != "" {
 			v[b].Bad, v[b].Sym, v[b].What = true, panicSym(pan), "panic: "+pan
 			continue
+		}
+		if s.lastArg != nil && s.keepHeld {
+			scribble(s.lastArg) // the store must have copied the caller's bytes
 		}
 		// the 64-bit register a half belongs to is observed whole, so that a
 		// write to one half that damages the other is seen at once
